@@ -103,7 +103,7 @@ class fdspawn(SpawnBase):
         self._log(s, 'send')
 
         b = self._encoder.encode(s, final=False)
-        return os.write(self.child_fd, b)
+        return self._write_all(self.child_fd, b)
 
     def sendline(self, s):
         "Write to fd with trailing newline, return number of bytes written"
